@@ -40,3 +40,18 @@ impl Object {
         self.svcs.iter().copied()
     }
 }
+
+#[cfg(feature = "verif-hooks")]
+impl Object {
+    pub(crate) fn verif_snapshot(&self, uuid: [u8; 16]) -> crate::verif::VerifObject {
+        let mut svcs: Vec<_> = self.svcs.iter().map(|c| *c.0.as_bytes()).collect();
+        svcs.sort();
+
+        crate::verif::VerifObject {
+            uuid,
+            cookie: *self.cookie.0.as_bytes(),
+            conn: self.conn_id.verif_id(),
+            svcs,
+        }
+    }
+}
